@@ -467,7 +467,6 @@ Proof.
   induction f; intros; simpl; auto.
   destruct (forallb is_nil Y); auto.
   rewrite pick_nil_all. destruct (pick Y Y); auto.
-  apply IHf.
 Qed.
 
 Lemma spec_single : forall m fuel acc, NoDup m -> length m < fuel ->
@@ -580,8 +579,9 @@ Section ClassStep.
   Proof.
     intros dupcheck. unfold class_mro_py, class_mro_py_gen. rewrite Hnd. rewrite andb_false_r.
     fold Y. fold (merge_py ([n] :: Y)). rewrite merge_py_spec, pmerge_spec.
-    rewrite map_dedup_id.
-    2:{ constructor. repeat constructor; simpl; auto. apply step_Y_nodup. }
+    assert (Hnd' : nodup_each ([n] :: Y)).
+    { constructor; [repeat constructor; simpl; tauto | exact step_Y_nodup]. }
+    rewrite (map_dedup_id _ Hnd').
     unfold spec_merge. change (total_len ([n] :: Y)) with (S (total_len Y)).
     rewrite spec_cons by apply step_self_fresh. rewrite spec_nil_cons. reflexivity.
   Qed.
@@ -597,7 +597,7 @@ Section ClassStep.
       { apply (proj1 (wf_bases_lt _ _) Hwf). simpl; auto. }
       destruct (Hgood b Hlt) as [m' [Em [Hn Hm]]].
       rewrite pmerge_spec. unfold spec_merge, Y. simpl map. simpl app. unfold mro_of at 1 2. rewrite Em.
-      inversion Hn; subst.
+      rewrite Em in Hn. inversion Hn as [|? ? Hnb Hnm]; subst.
       cbn [spec_loop forallb is_nil andb pick total_len fold_right].
       assert (E : in_tail b [b :: m'; [b]] = false).
       { apply in_tail_false. intros s [Es|[Es|[]]]; subst; simpl; auto. }
@@ -729,4 +729,276 @@ Proof.
   intros. split.
   - apply run_table_not_bad. intros. apply class_mro_py_total.
   - apply run_table_not_bad. apply class_mro_c_total.
+Qed.
+
+(* ------------------------------------------------------------------------------------------------ *)
+(* stub classes outside the VM: _ComputeMRO / GetBasesInMRO *)
+
+Lemma nth_firstn_lt : forall (l : list (list nat)) t b, b < t -> nth b (firstn t l) [] = nth b l [].
+Proof.
+  induction l as [|x l IH]; intros t b Hb.
+  - rewrite firstn_nil. reflexivity.
+  - destruct t; [lia|]. destruct b; simpl; auto. apply IH. lia.
+Qed.
+
+Lemma run_table_spec : forall f todo d0 done,
+  run_table f d0 todo = TableOk done ->
+  length done = length d0 + length todo /\
+  forall k, k < length todo ->
+    f (firstn (length d0 + k) done) (length d0 + k) (nth k todo []) = Ok (nth (length d0 + k) done []).
+Proof.
+  intros f. induction todo as [|bases rest IH]; intros d0 done Hr; simpl in Hr.
+  - inversion Hr; subst. split; [simpl; lia|]. intros k Hk. simpl in Hk. lia.
+  - destruct (f d0 (length d0) bases) as [m| | |] eqn:E; try discriminate.
+    destruct (IH _ _ Hr) as [Hl Hk]. rewrite app_length in Hl, Hk. simpl in Hl, Hk.
+    assert (Hpre : firstn (length d0) done = d0 /\ nth (length d0) done [] = m).
+    { clear - Hr. revert d0 m done Hr. induction rest as [|b r IHr]; intros d0 m done Hr; simpl in Hr.
+      - inversion Hr; subst. split.
+        + rewrite firstn_app, Nat.sub_diag, firstn_all. simpl. apply app_nil_r.
+        + rewrite app_nth2 by lia. rewrite Nat.sub_diag. reflexivity.
+      - destruct (f (d0 ++ [m]) (length (d0 ++ [m])) b) as [m2| | |]; try discriminate.
+        destruct (IHr _ _ _ Hr) as [H1 H2]. rewrite app_length in H1, H2. simpl in H1, H2.
+        split.
+        + assert (E : firstn (length d0) done = firstn (length d0) (firstn (length d0 + 1) done)).
+          { rewrite firstn_firstn. f_equal. lia. }
+          rewrite E, H1. rewrite firstn_app, Nat.sub_diag, firstn_all. simpl. apply app_nil_r.
+        + rewrite <- (nth_firstn_lt done (length d0 + 1) (length d0)) by lia.
+          rewrite H1. rewrite app_nth2 by lia. rewrite Nat.sub_diag. reflexivity. }
+    destruct Hpre as [Hp1 Hp2].
+    split; [simpl; lia|].
+    intros k Hlt. destruct k.
+    + rewrite Nat.add_0_r. simpl. rewrite Hp1, Hp2. exact E.
+    + simpl in Hlt. specialize (Hk k ltac:(lia)).
+      replace (length d0 + S k) with (length d0 + 1 + k) by lia. exact Hk.
+Qed.
+
+Lemma wf_table_from_nth : forall H i k,
+  wf_table_from i H = true -> k < length H -> wf_bases (i + k) (nth k H []) = true.
+Proof.
+  induction H as [|b rest IH]; intros i k Hw Hk; simpl in *; [lia|].
+  apply andb_true_iff in Hw. destruct Hw as [H1 H2].
+  destruct k.
+  - rewrite Nat.add_0_r. exact H1.
+  - replace (i + S k) with (S i + k) by lia. apply IH; auto. lia.
+Qed.
+
+Lemma good_done_firstn : forall done t, good_done done -> t <= length done -> good_done (firstn t done).
+Proof.
+  intros done t Hg Ht i Hi. rewrite firstn_length_le in Hi by auto.
+  rewrite nth_firstn_lt by auto. apply Hg. lia.
+Qed.
+
+Lemma spec_loop_acc : forall fuel Y acc x,
+  spec_loop fuel Y (acc ++ [x]) = match spec_loop fuel Y acc with Ok l => Ok (x :: l) | r => r end.
+Proof.
+  induction fuel; intros; simpl; auto.
+  destruct (forallb is_nil Y).
+  - rewrite rev_unit. reflexivity.
+  - destruct (pick Y Y); auto. rewrite <- IHfuel. reflexivity.
+Qed.
+
+Section Pytd.
+  Variable H : list (list nat).
+  Variable done : list (list nat).
+  Hypothesis Hwf : wf_table H = true.
+  Hypothesis Hnd : no_dup_bases H = true.
+  Hypothesis Hok : mros_c H = TableOk done.
+
+  Let M (t : nat) : list nat := nth t done [].
+
+  Lemma pytd_len : length done = length H.
+  Proof. destruct (run_table_spec _ _ _ _ Hok) as [Hl _]. simpl in Hl. exact Hl. Qed.
+
+  Lemma pytd_good : good_done done.
+  Proof.
+    destruct (run_table_agree false H [] good_done_nil Hwf Hnd) as [_ Hg].
+    fold (mros_c H) in Hg. rewrite Hok in Hg. exact Hg.
+  Qed.
+
+  Lemma pytd_bases_wf : forall t, t < length H -> wf_bases t (nth t H []) = true.
+  Proof. intros t Ht. apply (wf_table_from_nth H 0 t Hwf Ht). Qed.
+
+  Lemma pytd_bases_nodup : forall t, t < length H -> check_duplicates (nth t H []) = true.
+  Proof.
+    intros t Ht. unfold no_dup_bases in Hnd. rewrite forallb_forall in Hnd. apply Hnd. apply nth_In; auto.
+  Qed.
+
+  Lemma map_mro_of_firstn : forall t bases, wf_bases t bases = true ->
+    map (mro_of (firstn t done)) bases = map M bases.
+  Proof.
+    intros t bases Hb. apply map_ext_in. intros b Hin. unfold mro_of, M.
+    apply nth_firstn_lt. apply (proj1 (wf_bases_lt _ _) Hb); auto.
+  Qed.
+
+  (* the merge performed inside _ComputeMRO for class t yields the table's MRO of t *)
+  Lemma pytd_merge_fact : forall t, t < length H ->
+    merge_py ([t] :: map M (nth t H []) ++ [nth t H []]) = Ok (M t).
+  Proof.
+    intros t Ht.
+    destruct (run_table_spec _ _ _ _ Hok) as [_ Hk]. specialize (Hk t Ht). simpl in Hk.
+    assert (Hlen : length (firstn t done) = t). { apply firstn_length_le. rewrite pytd_len. lia. }
+    assert (Hg : good_done (firstn t done)).
+    { apply good_done_firstn. apply pytd_good. rewrite pytd_len. lia. }
+    pose proof (pytd_bases_wf t Ht) as Hb.
+    pose proof (step_agree (firstn t done) (nth t H [])) as Hs. rewrite Hlen in Hs.
+    specialize (Hs Hg Hb (pytd_bases_nodup t Ht) false).
+    rewrite Hk in Hs. unfold class_mro_py, class_mro_py_gen in Hs. simpl in Hs.
+    rewrite map_mro_of_firstn in Hs by auto. exact Hs.
+  Qed.
+
+  Definition memo_ok (P : nat -> Prop) (m : memo) : Prop :=
+    forall k v, memo_get m k = Some v ->
+      match v with Some l => k < length H /\ l = M k | None => P k end.
+
+  Lemma memo_get_set : forall m t v k,
+    memo_get (memo_set m t v) k = if Nat.eqb t k then Some v else memo_get m k.
+  Proof. reflexivity. Qed.
+
+  Lemma compute_mro_pytd_ok : forall fuel t (mros : memo) (P : nat -> Prop),
+    t < fuel -> t < length H -> (forall k, P k -> t < k) -> memo_ok P mros ->
+    exists mros', compute_mro_pytd fuel H t mros = Ok (Some (M t), mros') /\ memo_ok P mros'.
+  Proof.
+    induction fuel; intros t mros P Hf Ht HP Hm; [lia|]. simpl.
+    destruct (memo_get mros t) as [v|] eqn:Eg.
+    - pose proof (Hm t v Eg) as Hv. destruct v as [l|].
+      + destruct Hv as [_ El]. subst l. exists mros. split; auto.
+      + exfalso. specialize (HP t Hv). lia.
+    - set (P' := fun k => P k \/ k = t).
+      assert (Hloop : forall bs mros1 acc,
+                (forall b, In b bs -> b < t) -> memo_ok P' mros1 ->
+                exists mros2, pytd_bases_loop (compute_mro_pytd fuel H) bs mros1 acc
+                              = Ok (rev acc ++ map (fun b => Some (M b)) bs, mros2) /\ memo_ok P' mros2).
+      { induction bs as [|b rest IHb]; intros mros1 acc Hb Hm1; simpl.
+        - exists mros1. rewrite app_nil_r. auto.
+        - assert (Hbt : b < t) by (apply Hb; simpl; auto).
+          assert (Hrest : forall b0, In b0 rest -> b0 < t) by (intros; apply Hb; simpl; auto).
+          destruct (memo_get mros1 b) as [[l|]|] eqn:Eb.
+          + destruct (Hm1 b _ Eb) as [_ El]. subst l.
+            destruct (IHb mros1 (Some (M b) :: acc) Hrest Hm1) as [m2 [E2 H2]].
+            exists m2. split; auto. rewrite E2. simpl. rewrite <- app_assoc. reflexivity.
+          + exfalso. destruct (Hm1 b _ Eb) as [Hp|Hp]; [specialize (HP b Hp)|]; lia.
+          + destruct (IHfuel b mros1 P') as [m1' [E1 H1]]; auto; try lia.
+            { intros k [Hk|Hk]; [specialize (HP k Hk)|]; lia. }
+            rewrite E1.
+            destruct (IHb m1' (Some (M b) :: acc) Hrest H1) as [m2 [E2 H2]].
+            exists m2. split; auto. rewrite E2. simpl. rewrite <- app_assoc. reflexivity. }
+      destruct (Hloop (nth t H []) (memo_set mros t None) []) as [m2 [E2 H2]].
+      + apply wf_bases_lt. apply pytd_bases_wf; auto.
+      + intros k v Hk. rewrite memo_get_set in Hk. destruct (Nat.eqb t k) eqn:Ek.
+        * inversion Hk; subst. apply Nat.eqb_eq in Ek. right. auto.
+        * specialize (Hm k v Hk). destruct v; auto. left; auto.
+      + rewrite E2. simpl app.
+        assert (Eall : all_some (map (fun b => Some (M b)) (nth t H [])) = true).
+        { unfold all_some. apply forallb_forall. intros o Ho. apply in_map_iff in Ho.
+          destruct Ho as [b [Eo _]]. subst; auto. }
+        rewrite Eall. unfold unsome. rewrite map_map. rewrite pytd_merge_fact by auto.
+        eexists. split; [reflexivity|].
+        intros k v Hk. rewrite memo_get_set in Hk. destruct (Nat.eqb t k) eqn:Ek.
+        * inversion Hk; subst. apply Nat.eqb_eq in Ek. subst. auto.
+        * specialize (H2 k v Hk). destruct v; auto. destruct H2 as [Hp|Hp]; auto.
+          apply Nat.eqb_neq in Ek. congruence.
+  Qed.
+
+  Lemma bases_in_mro_loop_ok : forall bs mros acc,
+    (forall b, In b bs -> b < length H) -> memo_ok (fun _ => False) mros ->
+    bases_in_mro_loop (S (length H)) H bs mros acc = Ok (rev acc ++ map (fun b => Some (M b)) bs).
+  Proof.
+    induction bs as [|b rest IH]; intros mros acc Hb Hm.
+    - simpl. rewrite app_nil_r. reflexivity.
+    - cbn [bases_in_mro_loop].
+      destruct (compute_mro_pytd_ok (S (length H)) b mros (fun _ => False)) as [m' [E Hm']]; auto.
+      + assert (b < length H) by (apply Hb; simpl; auto). lia.
+      + apply Hb; simpl; auto.
+      + intros k [].
+      + rewrite E. rewrite IH; auto.
+        * simpl. rewrite <- app_assoc. reflexivity.
+        * intros; apply Hb; simpl; auto.
+  Qed.
+
+  Lemma get_bases_in_mro_is_merge : forall bases,
+    wf_bases (length H) bases = true ->
+    get_bases_in_mro H bases = merge_py (map M bases ++ [bases]).
+  Proof.
+    intros bases Hb. unfold get_bases_in_mro.
+    rewrite bases_in_mro_loop_ok.
+    - simpl app.
+      assert (Eall : all_some (map (fun b => Some (M b)) bases) = true).
+      { unfold all_some. apply forallb_forall. intros o Ho. apply in_map_iff in Ho.
+        destruct Ho as [b [Eo _]]. subst; auto. }
+      rewrite Eall. unfold unsome. rewrite map_map. reflexivity.
+    - apply wf_bases_lt; auto.
+    - intros k v Hk. simpl in Hk. discriminate.
+  Qed.
+
+  Lemma pytd_agree_lemma : forall bases,
+    wf_bases (length H) bases = true -> check_duplicates bases = true ->
+    class_mro_c done (length H) bases =
+    match get_bases_in_mro H bases with Ok l => Ok (length H :: l) | r => r end.
+  Proof.
+    intros bases Hb Hd. rewrite get_bases_in_mro_is_merge by auto.
+    rewrite <- pytd_len in *.
+    rewrite <- (step_agree done bases pytd_good Hb Hd false).
+    rewrite (step_py_is_pmerge done bases pytd_good Hb Hd false).
+    rewrite pmerge_spec, merge_py_spec.
+    assert (Hn : nodup_each (map (mro_of done) bases ++ [bases])).
+    { apply step_Y_nodup; auto. apply pytd_good. }
+    change (map M bases) with (map (mro_of done) bases).
+    rewrite (map_dedup_id _ Hn).
+    unfold spec_merge. change (rev [length done]) with ([] ++ [length done]).
+    rewrite spec_loop_acc. reflexivity.
+  Qed.
+End Pytd.
+
+(* ------------------------------------------------------------------------------------------------ *)
+(* statements used by Props/C10.v *)
+
+Lemma fuel_enough_lemma : forall sing seqs acc0 tm,
+  merge_py_gen sing seqs <> OutOfFuel /\ merge_py_gen sing seqs <> Crash /\
+  pmerge acc0 tm <> OutOfFuel /\ pmerge acc0 tm <> Crash.
+Proof.
+  intros. destruct (merge_py_gen_fuel_lemma sing seqs). destruct (pmerge_fuel_lemma acc0 tm). auto.
+Qed.
+
+Lemma mro_error_iff_partial_lemma : forall dupcheck H i,
+  wf_table H = true -> no_dup_bases H = true ->
+  (table_error (mros_py dupcheck H) = Some i <-> table_error (mros_c H) = Some i).
+Proof. intros. rewrite mro_agree_lemma by auto. tauto. Qed.
+
+Lemma mro_error_iff_dupcheck_lemma : forall H i,
+  wf_table H = true ->
+  (table_error (mros_py true H) = Some i <-> table_error (mros_c H) = Some i).
+Proof. intros. rewrite mro_agree_fixed_lemma by auto. tauto. Qed.
+
+(* object, class A(object), class B(A, A) *)
+Definition dup_witness : list (list nat) := [[]; [0]; [1; 1]].
+
+Lemma mro_error_iff_refuted_lemma :
+  exists H, wf_table H = true /\
+            table_error (mros_py false H) = None /\ table_error (mros_c H) = Some 2.
+Proof. exists dup_witness. vm_compute. auto. Qed.
+
+Lemma mro_agree_refuted_lemma :
+  exists H, wf_table H = true /\ mros_py false H <> mros_c H.
+Proof. exists dup_witness. vm_compute. split; auto. discriminate. Qed.
+
+Lemma lookup_agree_partial_lemma : forall dupcheck H attrs c name,
+  wf_table H = true -> no_dup_bases H = true ->
+  lookup_py dupcheck H attrs c name = lookup_c H attrs c name.
+Proof. intros. unfold lookup_py, lookup_c. rewrite mro_agree_lemma by auto. reflexivity. Qed.
+
+Lemma lookup_agree_dupcheck_lemma : forall H attrs c name,
+  wf_table H = true -> lookup_py true H attrs c name = lookup_c H attrs c name.
+Proof. intros. unfold lookup_py, lookup_c. rewrite mro_agree_fixed_lemma by auto. reflexivity. Qed.
+
+(* the looked-up class is the first one in the MRO that defines the name *)
+Lemma lookup_first_lemma : forall attrs mro name c,
+  lookup attrs mro name = Some c ->
+  exists pre post, mro = pre ++ c :: post /\ defines attrs name c = true /\
+                   forall x, In x pre -> defines attrs name x = false.
+Proof.
+  unfold lookup. induction mro as [|h t IH]; simpl; intros name c Hf; try discriminate.
+  destruct (defines attrs name h) eqn:E.
+  - inversion Hf; subst. exists [], t. simpl. repeat split; auto. intros x [].
+  - destruct (IH _ _ Hf) as [pre [post [E1 [E2 E3]]]]. exists (h :: pre), post. subst. simpl.
+    repeat split; auto. intros x [Ex|Hx]; subst; auto.
 Qed.
